@@ -182,6 +182,8 @@ TypeOK == /\ mode \in Modes
 ReaderOK == obs.ok /\ obs.seen \in {0, N}
 \* every builder statement is one of the effects the trace spec allows between two preemption points
 StepsAreEffects == [][bpc' # bpc => EffectTo(loc', pub', shared', coords')]_vars
+\* nobody takes a published table away again
+TableNeverShrinks == [][Len(pub') >= Len(pub)]_vars
 BuilderFinishes == <>(bpc \in {"done", "aborted"})
 \* nobody who needs the table is locked out for ever, also after an abandoned construction
 NeverBlockedForever == []<>(lk = "free")
